@@ -96,8 +96,10 @@ PROPS["C03"] = doc_prop(
     rule="cases = every child sequence of a paragraph up to the bound over {text, ws, br, inline, link, js link, font} "
          "x placement; non-trivial = the page had a simple paragraph with >= 2 word-bearing text nodes",
     nontrivial_key="para_multi", expand=wraps_c03, small=4,
-    design=dict(quick=[bfs("MC_Convert", "ConvertPara_q"), bfs("MC_Convert", "ConvertPara_defect", expect_violation=True)],
-                thorough=[bfs("MC_Convert", "ConvertPara_t", timeout=3000), bfs("MC_Convert", "ConvertPara_defect", expect_violation=True)]))
+    design=dict(quick=[bfs("MC_Convert", "ConvertPara_q"), bfs("MC_Convert", "ConvertPara_defect", expect_violation=True),
+                       bfs("MC_TextFilters", "TextFilters_q")],
+                thorough=[bfs("MC_Convert", "ConvertPara_t", timeout=3000), bfs("MC_Convert", "ConvertPara_defect", expect_violation=True),
+                          bfs("MC_TextFilters", "TextFilters_t", timeout=3000)]))
 
 PROPS["C04"] = doc_prop(
     "C04",
